@@ -37,6 +37,9 @@ def gen_sort_case(rnd):
     limit = offset = None
     if rnd.random() < 0.4:
         limit = rnd.randint(0, n + 2)
+        if rnd.random() < 0.15:
+            # "no upper bound" idioms: the arithmetic must not overflow
+            limit = rnd.choice([9223372036854775807, 9223372036854775806, 4611686018427387904, 2147483648, 4294967296])
         if rnd.random() < 0.6:
             offset = rnd.randint(0, n + 2)
     q = select([["star"]], table("t"), order=order, limit=limit, offset=offset,
@@ -50,7 +53,7 @@ def window_cases(max_len):
     for n in range(0, max_len + 1):
         rows = [{"id": i, "w": i % 3} for i in range(n)]
         for off in [None] + list(range(0, n + 3)):
-            for lim in range(0, n + 3):
+            for lim in list(range(0, n + 3)) + [9223372036854775807, 9223372036854775807 - n]:
                 for sp in (0, 1):
                     if off is None and sp == 1:
                         continue
